@@ -206,6 +206,15 @@ func methodGrid() []MethodCase {
 			}
 		}
 	}
+	// json.Numbers written with a fraction or an exponent whose value is an odd integer in [2^52, 2^53),
+	// and the doubles next to one half: rounding by "add a half and truncate" is off by one there
+	for _, n := range []string{"9007199254740991.0", "9.007199254740991e15", "4503599627370497.0", "-4503599627370497.0", "4503599627370499.0", "0.49999999999999994", "-0.49999999999999994", "0.5000000000000001", "4503599627370496.5", "2147483647.4", "-2147483648.4", "2147483646.5"} {
+		for _, m := range []string{".bigint()", ".integer()", ".double()", ".number()", ".decimal(16)", ".floor()", ".ceiling()", ".abs()"} {
+			for _, repr := range []string{"num", "f64", "str"} {
+				out = append(out, MethodCase{Chain: m, Value: Operand{repr, n}})
+			}
+		}
+	}
 	// datetime items through .string() and .type()
 	for _, s := range []string{"2015-08-01", "12:34:56", "12:34:56.789+05:30", "2015-08-01T12:34:56", "2015-08-01 12:34:56.5-04:00"} {
 		for _, m := range []string{".datetime().string()", ".datetime().type()", ".datetime().string().datetime().string()", ".datetime().size()", ".datetime().double()", ".datetime().boolean()", ".datetime().keyvalue()", ".datetime().abs()"} {
